@@ -55,11 +55,13 @@ pub struct Arena {
     /// round the shadow values of non-constant nodes to ~256 bits once they exceed 2048 bits (long runs through
     /// the optimizer loop: exact rationals grow exponentially with the nesting depth).  The terms stay exact.
     pub round_shadows: bool,
+    /// decisions taken on operands without a shadow value (NaN-like): the rest of such a path is not meaningful
+    pub undefined_decisions: usize,
 }
 
 impl Arena {
     fn new() -> Arena {
-        Arena { nodes: Vec::new(), shadow: Vec::new(), index: HashMap::new(), trace: Vec::new(), inputs: HashMap::new(), vars: Vec::new(), garbage_reads: 0, concretised: 0, approx_sqrt: false, round_shadows: false }
+        Arena { nodes: Vec::new(), shadow: Vec::new(), index: HashMap::new(), trace: Vec::new(), inputs: HashMap::new(), vars: Vec::new(), garbage_reads: 0, concretised: 0, approx_sqrt: false, round_shadows: false, undefined_decisions: 0 }
     }
 }
 
@@ -90,21 +92,48 @@ fn q_from_f64(v: f64) -> Option<Q> {
     Q::from_float(v)
 }
 pub fn q_to_f64(q: &Q) -> f64 {
-    // robust conversion also for huge numerators/denominators
-    let n = q.numer();
-    let d = q.denom();
+    // robust conversion also for huge numerators/denominators: a 64-bit quotient and a power of two
+    if q.is_zero() {
+        return 0.0;
+    }
+    let neg = q.is_negative();
+    let n = q.numer().abs();
+    let d = q.denom().clone();
     let (nb, db) = (n.bits() as i64, d.bits() as i64);
     if nb < 900 && db < 900 {
-        return n.to_f64().unwrap_or(f64::NAN) / d.to_f64().unwrap_or(f64::NAN);
+        let v = n.to_f64().unwrap_or(f64::NAN) / d.to_f64().unwrap_or(f64::NAN);
+        return if neg { -v } else { v };
     }
-    // scale down
-    let shift = (nb.max(db) - 800).max(0) as usize;
-    let n2 = n >> shift;
-    let d2 = d >> shift;
-    if d2.is_zero() {
-        return if n.is_negative() { f64::NEG_INFINITY } else { f64::INFINITY };
+    let shift = 64 - (nb - db);
+    let quo = if shift >= 0 { (n << (shift as usize)) / d } else { n / (d << ((-shift) as usize)) };
+    let mut v = quo.to_f64().unwrap_or(f64::NAN);
+    // v * 2^(-shift), in steps that neither overflow nor underflow prematurely
+    let mut e = -shift;
+    while e != 0 {
+        let step = e.clamp(-1000, 1000);
+        v *= 2f64.powi(step as i32);
+        e -= step;
     }
-    n2.to_f64().unwrap_or(f64::NAN) / d2.to_f64().unwrap_or(f64::NAN)
+    if neg {
+        -v
+    } else {
+        v
+    }
+}
+
+/// floor(sqrt(q) * 2^k) / 2^k with k chosen so that the result has about 256 significant bits
+pub fn q_sqrt_256(q: &Q) -> Q {
+    if q.is_zero() || q.is_negative() {
+        return Q::from_integer(BigInt::from(0));
+    }
+    let (n, d) = (q.numer().clone(), q.denom().clone());
+    // sqrt(n/d) = sqrt(n*d)/d ; scale n*d by 4^k so that the integer square root has >= 256 + bits(d) bits
+    let nd = &n * &d;
+    let want = 256 + d.bits() as i64;
+    let have = (nd.bits() as i64) / 2;
+    let k = (want - have).max(0) as usize;
+    let r = (nd << (2 * k)).sqrt();
+    Q::new(r, d << k)
 }
 
 fn mk_in(a: &mut Arena, n: Node, sh: Option<Q>) -> Sym {
@@ -225,7 +254,17 @@ impl Sym {
                 "=" => x == y,
                 _ => unreachable!(),
             },
-            _ => false, // undefined shadow (division by zero): behaves like NaN
+            _ => {
+                // undefined shadow (division by zero): behaves like NaN
+                let first = with_arena(|ar| {
+                    ar.undefined_decisions += 1;
+                    ar.undefined_decisions == 1
+                });
+                if first && std::env::var("VERIF_SYM_DEBUG").is_ok() {
+                    eprintln!("first undefined decision: #{} ({:?}, shadow {:?}) {} #{} ({:?}, shadow {:?})", self.0, self.node(), a.is_some(), op, o.0, o.node(), b.is_some());
+                }
+                false
+            }
         };
         if self.0 == o.0 && a.is_some() {
             return outcome;
@@ -264,7 +303,23 @@ impl Sym {
                 }
             }
         }
-        let sh = self.shadow().and_then(|q| if q.is_negative() { None } else { q_from_f64(q_to_f64(&q).sqrt()) });
+        let clamp = with_arena(|a| a.round_shadows);
+        let sh = self.shadow().and_then(|q| {
+            if q.is_negative() {
+                // rounded shadows: a radicand that is exactly zero may come out as -1e-100
+                if clamp && q_to_f64(&q) > -1e-30 {
+                    Some(Q::from_integer(BigInt::from(0)))
+                } else {
+                    None
+                }
+            } else if clamp {
+                // long runs: a 256-bit square root (the decisions of an optimizer close to convergence compare quantities
+                // that differ in the 17th digit; f64-accurate shadows would take some of them the wrong way)
+                Some(q_sqrt_256(&q))
+            } else {
+                q_from_f64(q_to_f64(&q).sqrt())
+            }
+        });
         mk(Node::Sqrt(self.0), sh)
     }
     fn un(self, f: &'static str) -> Sym {
